@@ -16,6 +16,11 @@ MUT = [
  ("C20", "qkeras/autoqkeras/autoqkeras_internal.py", "          if value <= self.limit[name][index]", "          if value <= self.limit[name][index] + 1", "_get_quantizer"),
  ("C20", "qkeras/autoqkeras/forgiving_metrics/forgiving_factor.py", "        self.trial_size < self.reference_size,", "        self.trial_size > self.reference_size,", "delta"),
  ("C20", "qkeras/autoqkeras/forgiving_metrics/forgiving_bits.py", "          bits = layer.get_quantizers()[i].bits\n        else:\n          bits = t_size", "          bits = layer.get_quantizers()[0].bits\n        else:\n          bits = t_size", "_param_size"),
+ ("C20", "qkeras/autoqkeras/autoqkeras_internal.py", "          layer_d['recurrent_quantizer'] = recurrent_quantizer_dict[layer.name]", "          layer_d['recurrent_quantizer'] = kernel_quantizer", "quantize_model/seq_class"),
+ ("C20", "qkeras/autoqkeras/autoqkeras_internal.py", "      if self.layer_indexes is not None and layer_id not in self.layer_indexes:\n        continue", "      if self.layer_indexes is not None and layer_id in self.layer_indexes:\n        continue", "quantize_model/indexes"),
+ ("C20", "qkeras/autoqkeras/autoqkeras_internal.py", "            layer.units = max(int(layer.units * layer_filters), 1)", "            layer.units = max(int(layer.units * layer_filters), 2)", "quantize_model/filters"),
+ ("C20", "qkeras/autoqkeras/autoqkeras_internal.py", "          if layer.use_bias:\n            layer_d[\"bias_quantizer\"], bits = self._get_quantizer(", "          if not layer.use_bias:\n            layer_d[\"bias_quantizer\"], bits = self._get_quantizer(", "quantize_model/dense"),
+ ("C20", "qkeras/autoqkeras/autoqkeras_internal.py", "      elif layer.__class__.__name__ in self.limit:\n        # mark it for conversion", "      elif layer.__class__.__name__ not in REGISTERED_LAYERS:\n        # mark it for conversion", "quantize_model/dense"),
  ("C19", "qkeras/qtools/qtools_util.py", "    operation_count = (\n        time_o * channels_o * kernel_length * channels_i)", "    operation_count = (\n        time_o * channels_o * kernel_length)", "Conv1D"),
  ("C10", "qkeras/quantizers.py", '    flags = [str(self.bits), integer_bits, str(int(self.symmetric))]\n    if not self.keep_negative:\n      flags.append("keep_negative=False")\n    if self.alpha:', '    flags = [str(self.bits), str(int(self.symmetric)), integer_bits]\n    if not self.keep_negative:\n      flags.append("keep_negative=False")\n    if self.alpha:', "quantized_bits"),
  ("C10", "qkeras/safe_eval.py", "    if (len(items[i]) == 1) and (len(items[i-1]) == 2):", "    if (len(items[i]) == 1) and (len(items[i-1]) == 2) and i > 1:", "GetParams"),
